@@ -2129,7 +2129,13 @@ func (w *ttWorld) call(toks []string) (op string, obs string, tags []string) {
 	if w.raw != nil {
 		peerKind = "raw"
 	}
-	tags = append(tags, "ver:"+w.ver, "peer:"+peerKind, "at:"+w.ver+"/"+peerKind+"/args-"+ttJSONKind(a))
+	// which session, and — the dimension a default-version client never exercises — which JSON kind of
+	// arguments / of structured content on a session older than 2026-07-28
+	era := "modern"
+	if w.ver < protocolVersion20260728 {
+		era = "legacy"
+	}
+	tags = append(tags, "ver:"+w.ver, "peer:"+peerKind, "akind:"+ttJSONKind(a), era+"-"+peerKind+"-args:"+ttJSONKind(a))
 	if gt := ttKV(toks, "gen"); gt != "" {
 		tags = append(tags, "gen:"+gt)
 	}
@@ -2306,7 +2312,7 @@ func (w *ttWorld) call(toks []string) (op string, obs string, tags []string) {
 				content = strings.Join(bl, ";")
 			}
 			if sc != "-" {
-				tags = append(tags, "structured", "sc:"+ttJSONKind("x"+hx(structured)), "at:"+w.ver+"/"+peerKind+"/sc-"+ttJSONKind("x"+hx(structured)))
+				tags = append(tags, "structured", "sc:"+ttJSONKind("x"+hx(structured)), era+"-"+peerKind+"-sc:"+ttJSONKind("x"+hx(structured)))
 			}
 		}
 	}
